@@ -23,6 +23,7 @@ import (
 	"github.com/refraction-networking/uquic/internal/qerr"
 	"github.com/refraction-networking/uquic/internal/utils"
 	"github.com/refraction-networking/uquic/internal/utils/ringbuffer"
+	"github.com/refraction-networking/uquic/internal/verifhook"
 	"github.com/refraction-networking/uquic/internal/wire"
 	"github.com/refraction-networking/uquic/qlog"
 	"github.com/refraction-networking/uquic/qlogwriter"
@@ -745,6 +746,7 @@ runLoop:
 	closeErr := c.closeErr.Load()
 	c.cryptoStreamHandler.Close()
 	c.sendQueue.Close() // close the send queue before sending the CONNECTION_CLOSE
+	verifhook.Point("conn.run.beforeHandleCloseError")
 	c.handleCloseError(closeErr)
 	if c.qlogger != nil {
 		if e := (&errCloseForRecreating{}); !errors.As(closeErr.err, &e) {
@@ -2251,6 +2253,7 @@ func (c *Conn) handleCloseError(closeErr *closeError) {
 		transportErrorCode = &code
 	}
 
+	verifhook.Point("conn.handleCloseError.beforeStreamsClose")
 	c.streamsMap.CloseWithError(e)
 	if c.datagramQueue != nil {
 		c.datagramQueue.CloseWithError(e)
